@@ -100,7 +100,7 @@ func (s *SetSys[T]) newAPI(vals ...T) *setAPI[T] {
 		return wrapLinkedHashSet(linkedhashset.New[T](vals...))
 	case "treeset":
 		if s.shared == nil {
-			s.shared = func(a, b T) int { s.calls++; return s.Cmp(a, b) }
+			s.shared = s.Cmp // one func value for all TreeSets of this system, and a pure one
 		}
 		return wrapTreeSet(treeset.NewWith[T](s.shared, vals...))
 	}
